@@ -152,11 +152,17 @@ theorem enq_goLines (cfg : Cfg) (st : LState) (ls : List Str) : ∀ e ∈ enqueu
     simp only
     split
     · exact enq_stepLine _ _ _
-    · intro e he
-      rw [enqueued_append] at he
-      rcases List.mem_append.mp he with h | h
-      · exact enq_stepLine _ _ _ e h
-      · exact ih _ e h
+    · split
+      · intro e he
+        rw [enqueued_append] at he
+        rcases List.mem_append.mp he with h | h
+        · exact enq_stepLine _ _ _ e h
+        · exact enq_flushBlock _ _ e h
+      · intro e he
+        rw [enqueued_append] at he
+        rcases List.mem_append.mp he with h | h
+        · exact enq_stepLine _ _ _ e h
+        · exact ih _ e h
 
 theorem enq_serve (ll : Nat) (fs : FS) (dir : Str) (e : QEntry) :
     ∀ e' ∈ enqueued (serve ll fs dir e), e'.chain = e.chain ++ [joinPath dir e.name] := by
@@ -171,11 +177,11 @@ theorem enq_serve (ll : Nat) (fs : FS) (dir : Str) (e : QEntry) :
 /-! ## one file -/
 
 /-- the lines of one file as the model (`mlines`, with their terminators) and the Spec (`slines`) see them, all of
-    them lines on which the code's rules and MCNP's coincide; read from block `start` the file is well terminated -/
-def FileOK (limit start : Nat) (mlines : List Str) (slines : List Spec.Line) : Prop :=
+    them lines on which the code's rules and MCNP's coincide.  (Nothing is asked about what follows the blank line
+    that ends the data block: the code stops there and the Spec ignores it.) -/
+def FileOK (limit : Nat) (mlines : List Str) (slines : List Spec.Line) : Prop :=
   ∃ ms : List (List Char × List Char), mlines = ms.map (fun q => q.1 ++ q.2) ∧ slines = ms.map (·.1) ∧
-    (∀ q ∈ ms, GoodLine limit q.1 ∧ IsTerm q.2) ∧
-    wellTerminated start (ms.map (fun q => Spec.classifyPhysical q.1)) = true
+    (∀ q ∈ ms, GoodLine limit q.1 ∧ IsTerm q.2)
 
 theorem expandTabs_noTab (y : List Char) (h : ∀ c ∈ y, c ≠ '\t') (col : Nat) : Spec.expandTabsFrom col y = y := by
   induction y generalizing col with
@@ -192,11 +198,11 @@ theorem classify_good {limit : Nat} {x : List Char} (g : GoodLine limit x) :
   rw [List.take_of_length_le (Nat.le_of_lt g.fits)]
 
 theorem fileStream_ok {limit : Nat} (cfg : Cfg) (hl : cfg.lineLength = limit) (mlines : List Str) (slines : List Spec.Line)
-    (h : FileOK limit cfg.firstBlock.value mlines slines) :
+    (h : FileOK limit mlines slines) :
     proj (readData cfg mlines) =
       Spec.cutS (Spec.fileStream limit (joinPath cfg.topDir) cfg.chain cfg.firstBlock.value slines) := by
-  obtain ⟨ms, rfl, rfl, hgood, hwt⟩ := h
-  rw [readData_refines cfg hl ms hgood hwt]
+  obtain ⟨ms, rfl, rfl, hgood⟩ := h
+  rw [readData_refines cfg hl ms hgood]
   unfold Spec.fileStream Spec.inputsFrom
   have : (ms.map (·.1)).map (Spec.classify limit) = ms.map (fun q => Spec.classifyPhysical q.1) := by
     rw [List.map_map]
@@ -209,7 +215,7 @@ theorem fileStream_ok {limit : Nat} (cfg : Cfg) (hl : cfg.lineLength = limit) (m
 def EntryOK (limit : Nat) (fs : FS) (files : Spec.Files) (dir : Str) (e : QEntry) : Prop :=
   match fs (joinPath dir e.name) with
   | none => files (joinPath dir e.name) = none
-  | some bytes => ∃ ls, files (joinPath dir e.name) = some ls ∧ FileOK limit e.bt.value (fileLines bytes) ls
+  | some bytes => ∃ ls, files (joinPath dir e.name) = some ls ∧ FileOK limit (fileLines bytes) ls
 
 theorem serve_ok (ll : Nat) (fs : FS) (files : Spec.Files) (main : Str) (e : QEntry)
     (hchain : e.chain.head? = some main) (hok : EntryOK ll fs files (dirname main) e) :
@@ -328,19 +334,15 @@ theorem gens_refines (ll : Nat) (fs : FS) (files : Spec.Files) (main : Str) (d :
 
 /-! ## a sufficient, decidable criterion for `FileOK` (used by the non-vacuity examples) -/
 
-/-- a line without `$` and `#` whose only white space is the blank is a `GoodLine` as soon as it fits and carries a word -/
+/-- a line without `$` that does not begin with `#` and whose only white space is the blank is a `GoodLine` as soon
+    as it fits and — unless blank or a comment line — carries a word -/
 theorem goodLine_plain (limit : Nat) (x : List Char)
     (h1 : ∀ c ∈ x, pyIsSpace c = true → c = ' ') (h2 : x.length < limit)
-    (h3 : x.contains '#' = false) (h4 : x.contains '$' = false)
+    (h3 : hashFirst x = false) (h4 : x.contains '$' = false)
     (h5 : Spec.isBlankLine x = false → Spec.isCommentLine x = false → Spec.lineWords x ≠ []) : GoodLine limit x where
   onlyBlanks := h1
   fits := h2
-  noVertical := by
-    intro h
-    have : x.contains '#' = true := by
-      simp only [List.contains_eq_mem, decide_eq_true_eq] at h ⊢
-      exact List.mem_of_mem_take h
-    rw [h3] at this; exact absurd this (by decide)
+  noVertical := h3
   noAmpDollar := by intro _ h; rw [h4] at h; exact absurd h (by decide)
   hasWords := h5
   dollarSpaced := by
@@ -348,30 +350,12 @@ theorem goodLine_plain (limit : Nat) (x : List Char)
     have : x.contains '$' = true := by rw [e]; simp
     rw [h4] at this; exact absurd this (by decide)
 
-theorem wt_noBlank (start : Nat) (hs : start < 3) (ks : List Spec.Kind) (h : ∀ k ∈ ks, k ≠ .blank) :
-    wellTerminated start ks = true := by
-  induction ks with
-  | nil => rfl
-  | cons k ks ih =>
-    have ih' := ih (fun k' hk' => h k' (List.mem_cons_of_mem _ hk'))
-    cases k with
-    | blank => exact absurd rfl (h _ (by simp))
-    | comment => simpa [wellTerminated] using ih'
-    | data c w a => simp [wellTerminated, hs, ih']
-
-theorem kind_ne_blank (x : List Char) (h : Spec.isBlankLine x = false) : Spec.classifyPhysical x ≠ .blank := by
-  unfold Spec.classifyPhysical
-  simp only [h, Bool.false_eq_true, ↓reduceIte]
-  split
-  · simp
-  · split <;> simp
-
-theorem exFileOK (start : Nat) (hs : start < 3) (ls : List (List Char)) (bytes : List Nat)
+theorem exFileOK (ls : List (List Char)) (bytes : List Nat)
     (hm : fileLines bytes = ls.map (· ++ ['\n']))
-    (hg : ∀ x ∈ ls, (∀ c ∈ x, pyIsSpace c = true → c = ' ') ∧ x.length < 128 ∧ x.contains '#' = false ∧
-      x.contains '$' = false ∧ Spec.isBlankLine x = false ∧ (Spec.isCommentLine x = false → Spec.lineWords x ≠ [])) :
-    FileOK 128 start (fileLines bytes) ls := by
-  refine ⟨ls.map (fun x => (x, ['\n'])), ?_, ?_, ?_, ?_⟩
+    (hg : ∀ x ∈ ls, (∀ c ∈ x, pyIsSpace c = true → c = ' ') ∧ x.length < 128 ∧ hashFirst x = false ∧
+      x.contains '$' = false ∧ (Spec.isBlankLine x = false → Spec.isCommentLine x = false → Spec.lineWords x ≠ [])) :
+    FileOK 128 (fileLines bytes) ls := by
+  refine ⟨ls.map (fun x => (x, ['\n'])), ?_, ?_, ?_⟩
   · rw [hm, List.map_map]; rfl
   · rw [List.map_map]
     clear hm hg
@@ -380,14 +364,7 @@ theorem exFileOK (start : Nat) (hs : start < 3) (ls : List (List Char)) (bytes :
     | cons x l ih => rw [List.map_cons, ← ih]; rfl
   · intro q hq
     obtain ⟨x, hx, rfl⟩ := List.mem_map.mp hq
-    obtain ⟨a, b, c, d, _, f⟩ := hg x hx
-    exact ⟨goodLine_plain 128 x a b c d (fun _ => f), Or.inr rfl⟩
-  · -- no blank line in the file: the block never changes
-    apply wt_noBlank start hs
-    intro k hk
-    rw [List.map_map] at hk
-    obtain ⟨x, hx, rfl⟩ := List.mem_map.mp hk
-    exact kind_ne_blank x (hg x hx).2.2.2.2.1
-
+    obtain ⟨a, b, c, d, f⟩ := hg x hx
+    exact ⟨goodLine_plain 128 x a b c d f, Or.inr rfl⟩
 
 end MontePyVerif.Flatten
